@@ -6,4 +6,4 @@ CONSTANTS
   CVals <- C1to4
   AstVals <- Ast0
   MaxS = 14
-INVARIANTS ImplWellFormed
+INVARIANTS ImplOrigWellFormed
